@@ -463,8 +463,11 @@ fn case(seed: u64, trace: bool) -> CaseOut {
             }
         }
     }
+    // (bytes of a frame the victim should have refused were never registered with the ledger: their
+    // delivery is the same event as the acceptance reported above, not a second violation)
+    let wrongly_accepted = violations.iter().any(|v| v.starts_with("victim accepted a frame that breaks its advertised limits"));
     for v in s.w.all_violations() {
-        if matches!(v.prop, "C01" | "C06" | "C11") {
+        if matches!(v.prop, "C01" | "C06" | "C11") && !(wrongly_accepted && v.msg.contains("beyond written")) {
             violations.push(format!("[{}] {}", v.prop, v.msg));
         }
     }
